@@ -111,6 +111,7 @@ func (e *Engine) beginPath() {
 	e.depth = 0
 	e.curPanicFrame = nil
 	bigTab = map[*Value]*bigVal{}
+	bigMetaTab = map[*bigVal]*bigMeta{}
 	freshN = 0 // deterministic names per path: same draw order => same names (declared once globally)
 }
 func (e *Engine) endPath() { e.killThreads() }
